@@ -915,6 +915,12 @@ def r4_fresh_name_generator(ctx, rid):
     ctx.require(n_add >= 2, f"{rid}: expected add_node calls in add_var and add_op of {cls.name}, found {n_add}")
     # ---- call sites that throw the returned label away must request a provably free name
     reserved = read_reserved(ctx, rid)      # effective vocabulary: empty when check_vname does not raise / is not applied
+    from ._c01_util import reserved_table_concat_hits
+    cv = ctx.repo.get_func("pyrates/frontend/template/operator.py", "check_vname")
+    for scope, e, val, toks in reserved_table_concat_hits(ctx):
+        ctx.violation(rid, cv, e, f"an entry of a reserved-name table is written as adjacent string literals {' '.join(toks)} (lost comma): they fold "
+                                  f"into the single entry {val!r}, so neither name is reserved and a user variable of that name collides with a "
+                                  f"generated one", {"tokens": toks}, label=f"reserved-name table entry {val!r}")
     n_sites = 0
     for mname in ("add_var", "add_op"):
         m = get_method(ctx, cls, mname)
